@@ -11,6 +11,11 @@
 //!   rm <k> <stream>                blocking read_message over a reader handing out <= k bytes per read (0: &[u8])
 //!   hm <state> <d> <kind>          Session::handle_msg in every (state, delay-open-running, message kind)
 //!   e2e <state> <d> <stream> <table>  bytes written to a loopback socket, Session::tick until error/EOF
+//!   e2ed <state> <d> <stream> <table> like e2e, but the application has DROPPED its command sender before the first tick (what
+//!                                  happens when the session is handed to Session::process()); after the run has ended
+//!                                  (error / connection gone) tick() is called twice more under a 15 ms guard:
+//!                                  ` after=<ok|err|pend>,..` (pend = still waiting: what the code does once nothing is left
+//!                                  but its stopped timers; it must not panic)
 //!   e2ec <state> <d> <stream> <lens> <table>  like e2e, but the peer writes the stream in the chunks <lens>; after every
 //!                                  chunk but the last the application sends Command::GetAttributes and the session is
 //!                                  ticked until it is idle (so tick() is cancelled / another select! arm fires while a
@@ -261,27 +266,91 @@ fn dec_reference(frame: &[u8]) -> Option<&'static str> {
         2 => if len < 23 || len > frame.len() { Some("err") } else { None },
         3 => if len != frame.len() || len < 21 { Some("err") } else if frame[19] == 2 && frame[20] == 1 { Some("v") } else { Some("n") },
         4 => if len == 19 && frame.len() == 19 { Some("k") } else { Some("err") },
+        // a well-formed ROUTE-REFRESH (RFC 2918: 23 octets; RFC 7313 adds longer ones) is a BGP message RFC 4271 does
+        // not know: the property leaves its fate free (refused by the decoder = the session ends with an error, or
+        // handed to the FSM, which ignores it) – judged by `dec_rr_ok`
+        5 => if len != frame.len() || len < 23 { Some("err") } else { None },
         _ => Some("err"),
     }
 }
 
-/// reference framing written from RFC 4271 section 4.1: (frames, end)
-fn reference(stream: &[u8]) -> (Vec<Vec<u8>>, End) {
+/// a frame whose fate the property leaves free: a well-formed ROUTE-REFRESH (see `dec_reference`)
+fn is_wellformed_rr(f: &[u8]) -> bool {
+    f.len() >= 23 && f[..16] == [0xffu8; 16] && u16::from_be_bytes([f[16], f[17]]) as usize == f.len() && f[18] == 5
+}
+
+/// How the frame at the head of `rest` must fare, from RFC 4271 section 4.1 and the property text alone.
+/// The property fixes the outcome only for (a) complete BGP messages (delivered, exactly their bytes), (b) a
+/// length field below 19 and (c) a wrong marker (error, never a panic, never delivered). It does not say WHEN a bad
+/// header is refused (at once, or when the announced octets have arrived), nothing about frames longer than RFC
+/// 4271's 4096 octets, and nothing about ROUTE-REFRESH (RFC 2918) – there either outcome is accepted.
+#[derive(Clone, Copy, PartialEq, Eq, Debug)]
+enum Fate { Deliver, Refuse, Either, WaitFor(usize), WaitOrRefuse(usize) }
+
+fn head_fate(rest: &[u8]) -> (Fate, usize) {
+    let rem = rest.len();
+    let bad_marker = rest.iter().take(16).any(|b| *b != 0xff);
+    if rem < 18 {
+        // header incomplete: wait; a marker octet that is already wrong may be refused at once
+        return (if bad_marker { Fate::WaitOrRefuse(rem) } else { Fate::WaitFor(rem) }, 0);
+    }
+    let len = u16::from_be_bytes([rest[16], rest[17]]) as usize;
+    if len < 19 { return (Fate::Refuse, 0); }
+    if rem < len {
+        // the offending / oversized frame is incomplete: lazy (`rest:n`) or eager (`err`) refusal
+        return (if bad_marker || len > 4096 { Fate::WaitOrRefuse(rem) } else { Fate::WaitFor(rem) }, 0);
+    }
+    let f = &rest[..len];
+    if bad_marker { return (Fate::Refuse, len); }
+    if len > 4096 || is_wellformed_rr(f) { return (Fate::Either, len); }
+    match std::panic::catch_unwind(|| real_decode(f).is_ok()) {
+        Ok(true) => (Fate::Deliver, len),
+        _ => (Fate::Refuse, len),
+    }
+}
+
+/// the property on one run: the frames the implementation extracted (hex, in order) and how the run ended
+/// (`rest:<n>` / `err`)
+fn judge_run(stream: &[u8], frames: &str, end: &str) -> Result<(), String> {
+    let got: Vec<&str> = if frames == "-" { vec![] } else { frames.split(',').collect() };
+    let mut o = 0;
+    let mut i = 0;
+    loop {
+        let (fate, len) = head_fate(&stream[o..]);
+        let delivered_here = i < got.len() && len > 0 && got[i] == hex(&stream[o..o + len]);
+        let stop = |want: &str| -> Result<(), String> {
+            if i < got.len() { return Err(format!("frames extracted differ from the messages on the wire: frame #{} `{}` is not a message at offset {}", i, trunc80(got[i]), o)); }
+            let ok = match fate {
+                Fate::WaitFor(n) => end == format!("rest:{}", n),
+                Fate::WaitOrRefuse(n) => end == format!("rest:{}", n) || end == "err",
+                _ => end == "err",
+            };
+            if ok { Ok(()) } else { Err(format!("stream must end in `{}`, implementation says `{}`", want, end)) }
+        };
+        match fate {
+            Fate::Deliver => {
+                if !delivered_here { return Err(format!("frames extracted differ from the messages on the wire: expected {} as frame #{}", trunc80(&hex(&stream[o..o + len])), i)); }
+            }
+            Fate::Either => { if !delivered_here { return stop("err"); } }
+            Fate::Refuse => return stop("err"),
+            Fate::WaitFor(n) => return stop(&format!("rest:{}", n)),
+            Fate::WaitOrRefuse(n) => return stop(&format!("rest:{}` or `err", n)),
+        }
+        i += 1;
+        o += len;
+    }
+}
+
+/// reference framing written from RFC 4271 section 4.1: the longest sequence of frames a conforming session may
+/// extract (frames whose fate is free are taken as delivered)
+fn reference(stream: &[u8]) -> Vec<Vec<u8>> {
     let mut o = 0;
     let mut frames = vec![];
     loop {
-        let rem = stream.len() - o;
-        if rem < 18 { return (frames, End::Rest(rem)); }
-        let len = u16::from_be_bytes([stream[o + 16], stream[o + 17]]) as usize;
-        if len < 19 { return (frames, End::Err); }
-        if rem < len { return (frames, End::Rest(rem)); }
-        let f = &stream[o..o + len];
-        if f[..16] != [0xffu8; 16] { return (frames, End::Err); }
-        match std::panic::catch_unwind(|| real_decode(f).is_ok()) {
-            Ok(true) => frames.push(f.to_vec()),
-            _ => return (frames, End::Err),
+        match head_fate(&stream[o..]) {
+            (Fate::Deliver | Fate::Either, len) => { frames.push(stream[o..o + len].to_vec()); o += len; }
+            _ => return frames,
         }
-        o += len;
     }
 }
 
@@ -610,11 +679,16 @@ fn dbg_payload(e: &Box<dyn std::any::Any + Send>) {
     }
 }
 
-fn run_e2e(env: &mut Env, st: u16, d: bool, stream: &[u8]) -> String {
+fn run_e2e(env: &mut Env, st: u16, d: bool, stream: &[u8], drop_cmd: bool) -> String {
     let r = std::panic::catch_unwind(std::panic::AssertUnwindSafe(|| {
         env.rt.block_on(async {
             use tokio::io::AsyncWriteExt;
             let mut se = new_session().await;
+            if drop_cmd {
+                // the application keeps no handle on the command channel
+                let (tx, _rx) = tokio::sync::mpsc::channel(1);
+                drop(std::mem::replace(&mut se.cmd_tx, tx));
+            }
             se.s.verif_set_state(state_of(st));
             if d { se.s.verif_start_delay_open_timer(); }
             se.client.write_all(stream).await.unwrap();
@@ -628,7 +702,17 @@ fn run_e2e(env: &mut Env, st: u16, d: bool, stream: &[u8]) -> String {
                 }
                 if !se.s.verif_snapshot().has_connection { break; }
             }
-            format!("{} conn={} outs={}", ticks.join(","), se.s.verif_snapshot().has_connection as u8, drain_outs(&mut se.pdu_rx))
+            let mut reply = format!("{} conn={} outs={}", ticks.join(","), se.s.verif_snapshot().has_connection as u8, drain_outs(&mut se.pdu_rx));
+            if drop_cmd && !reply.contains("hang") {
+                // the session task goes on calling tick() (Session::process loops until an Err)
+                let mut after = vec![];
+                for _ in 0..2 {
+                    after.push(match tokio::time::timeout(std::time::Duration::from_millis(15), se.s.tick()).await {
+                        Err(_) => "pend", Ok(Ok(())) => "ok", Ok(Err(_)) => "err" });
+                }
+                reply.push_str(&format!(" after={}", after.join(",")));
+            }
+            reply
         })
     }));
     match r { Ok(s) => s, Err(e) => { dbg_payload(&e); "panic".into() } }
@@ -779,6 +863,14 @@ impl Prop for C09 {
             v.push(format!("bytewise {} {}", h, t));
             for _ in 0..2 { v.push(format!("feed {} {} {}", h, lens_str(&random_lens(rng, s.len())), t)); }
         }
+        // (4c) long streams: hundreds of frames through one Connection (BytesMut growth / advance cycles)
+        for i in 0..(2 * scale) {
+            let mut s = vec![];
+            for _ in 0..(250 + 50 * (i % 3)) { s.extend(match rng.below(3) { 0 => keepalive(), 1 => update_msg(rng), _ => notification(6, 2, &[]) }); }
+            if i % 2 == 1 { s.extend(route_refresh()); s.extend(keepalive()); }
+            v.push(format!("feed {} {} *", hex(&s), lens_str(&random_lens(rng, s.len()))));
+            v.push(format!("feed {} {} *", hex(&s), s.len()));
+        }
         // (5) malformed streams and arbitrary bytes
         for i in 0..(1000 * scale) {
             let s = if i % 10 == 0 { let n = rng.usize(0, 80); rng.bytes(n) } else { malformed(rng) };
@@ -799,7 +891,7 @@ impl Prop for C09 {
         }
         // (7) end to end over a loopback socket: Session::tick on what the peer wrote
         for i in 0..(400 * scale) {
-            let st = 1 + rng.below(6) as u16;
+            let st = 1 + rng.below(7) as u16;   // 7 = State::Unimplemented
             let d = rng.chance(1, 4) as u8;
             let s = if i % 3 == 2 { malformed(rng) } else {
                 let mut s = vec![];
@@ -810,6 +902,21 @@ impl Prop for C09 {
             let t = table_for(&s);
             if !decoders_total(&t) { continue; }
             v.push(format!("e2e {} {} {} {}", st, d, hex(&s), t));
+        }
+        // (7a) the same with the command channel closed by the application (Session::process() situation), and tick()
+        //      called again after the session has lost its connection: streams that end the session in every way
+        //      (message illegal in the state, bad header, plain EOF, accepted OPEN + KEEPALIVE)
+        for i in 0..(90 * scale) {
+            let st = if i % 2 == 0 { 4 } else { 1 + rng.below(6) as u16 };
+            let d = rng.chance(1, 6) as u8;
+            let s = match i % 6 {
+                0 => keepalive(),
+                1 => update_msg(rng),
+                2 => vec![],
+                3 => malformed(rng),
+                _ => { let mut s = vec![]; for _ in 0..rng.usize(1, 3) { s.extend(any_msg(rng)); } s }
+            };
+            v.push(format!("e2ed {} {} {} *", st, d, hex(&s)));
         }
         // (7b) the same through chunked writes with a command in between (select! fairness / cancellation of read_frame):
         //      at least one split falls inside a frame, after its 18th octet
@@ -897,7 +1004,13 @@ impl Prop for C09 {
                 let (Ok(st), Ok(d)) = (st.parse::<u16>(), d.parse::<u8>()) else { return "bad-op".into() };
                 let Some(s) = get(s) else { return "bad-op".into() };
                 if !(1..=7).contains(&st) || d > 1 || parse_table(t, s.len()).is_none() { return "bad-op".into(); }
-                with_env(|e| run_e2e(e, st, d == 1, &s))
+                with_env(|e| run_e2e(e, st, d == 1, &s, false))
+            }
+            ["e2ed", st, d, s, t] => {
+                let (Ok(st), Ok(d)) = (st.parse::<u16>(), d.parse::<u8>()) else { return "bad-op".into() };
+                let Some(s) = get(s) else { return "bad-op".into() };
+                if !(1..=7).contains(&st) || d > 1 || parse_table(t, s.len()).is_none() { return "bad-op".into(); }
+                with_env(|e| run_e2e(e, st, d == 1, &s, true))
             }
             _ => "bad-op".into(),
         }
@@ -915,7 +1028,9 @@ impl Prop for C09 {
                 if let Some(want) = dec_reference(&f) {
                     if reply != want { return Err(format!("RFC 4271 section 4: this frame must decode to `{}`, the implementation says `{}`", want, trunc80(reply))); }
                 }
-                if reply == "r" { return Err("a ROUTE-REFRESH reached the FSM (Message::from_octets must refuse it)".into()); }
+                // ROUTE-REFRESH: refused or recognised, but only a well-formed one may be recognised
+                if reply == "r" && !is_wellformed_rr(&f) { return Err("a frame that is not a well-formed ROUTE-REFRESH was decoded as one".into()); }
+                if is_wellformed_rr(&f) && reply != "r" && reply != "err" { return Err(format!("a ROUTE-REFRESH decoded as `{}`", trunc80(reply))); }
                 // an OPEN is classified by the AS it announces
                 if let Some(x) = r.get(1).and_then(|x| x.strip_prefix("asn=")) {
                     let same = x == *a;
@@ -925,10 +1040,8 @@ impl Prop for C09 {
             }
             ["feed", s, ..] | ["bytewise", s, ..] | ["split2", s, ..] | ["split3", s, ..] | ["parts", s, ..] => {
                 let s = unhex(s).ok_or("hex")?;
-                let (fr, end) = reference(&s);
                 if r.len() < 2 { return Err("short reply".into()); }
-                if r[0] != show_frames(&fr) { return Err(format!("frames extracted differ from the messages on the wire: expected {}", trunc80(&show_frames(&fr)))); }
-                if r[1] != show_end(&end) { return Err(format!("stream must end in `{}`, implementation says `{}`", show_end(&end), r[1])); }
+                judge_run(&s, r[0], r[1])?;
                 if matches!(w[0], "split2" | "split3" | "parts") {
                     let n = r.iter().find_map(|x| x.strip_prefix("n=")).unwrap_or("?");
                     let same = r.iter().find_map(|x| x.strip_prefix("same=")).unwrap_or("!");
@@ -941,7 +1054,7 @@ impl Prop for C09 {
                 // the blocking reader on a stream of complete frames returns exactly those frames
                 let mut o = 0; let mut exp = vec![]; let mut clean = true;
                 while o < s.len() && exp.len() < 8 {
-                    if s.len() - o < 18 { exp.push("none".to_string()); clean = false; break; }
+                    if s.len() - o < 18 { exp.push("none|err".to_string()); clean = false; break; }   // EOF inside a header: no frame
                     let len = u16::from_be_bytes([s[o + 16], s[o + 17]]) as usize;
                     if len < 19 || len > 4096 { exp.push("err".into()); clean = false; break; }
                     if s.len() - o < len { clean = false; break; }
@@ -950,7 +1063,7 @@ impl Prop for C09 {
                 }
                 if clean && exp.len() < 8 { exp.push("none".into()); }
                 for (i, e) in exp.iter().enumerate() {
-                    match r.get(i) { Some(x) if x == e => {}, other => return Err(format!("read #{}: expected {}, got {:?}", i, trunc80(e), other)) }
+                    match r.get(i) { Some(x) if x == e || (e == "none|err" && (*x == "none" || *x == "err")) => {}, other => return Err(format!("read #{}: expected {}, got {:?}", i, trunc80(e), other)) }
                 }
                 Ok(())
             }
@@ -962,7 +1075,7 @@ impl Prop for C09 {
                 }
                 // what reached the application are messages that are on the wire, in wire order
                 let s = unhex(s).ok_or("hex")?;
-                let (fr, _) = reference(&s);
+                let fr = reference(&s);
                 let want: Vec<String> = fr.iter().filter_map(|f| match f[18] {
                     2 => Some(format!("U:{}:{}", f.len(), hash_bytes(f))),
                     3 => Some(format!("N:{}.{}", f[19], f[20])),
@@ -974,7 +1087,7 @@ impl Prop for C09 {
                 }
                 Ok(())
             }
-            ["e2e", ..] => { if reply.contains("hang") { Err("session task hangs on the peer's bytes".into()) } else { Ok(()) } }
+            ["e2e", ..] | ["e2ed", ..] => { if reply.contains("hang") { Err("session task hangs on the peer's bytes".into()) } else { Ok(()) } }
             _ => Ok(()),
         }
     }
@@ -983,7 +1096,7 @@ impl Prop for C09 {
         if reply == "bad-op" { return false; }
         let op = line.split(' ').next().unwrap_or("");
         match op {
-            "hm" | "e2e" | "e2ec" => true,
+            "hm" | "e2e" | "e2ec" | "e2ed" => true,
             "dec" => reply != "err" || line.split(' ').nth(3).map(|h| h.len() >= 38 && h.starts_with("ffffffffffffffffffffffffffffffff")).unwrap_or(false),
             "rm" => reply.starts_with("some") || reply.starts_with("err"),
             _ => !reply.starts_with("- rest:"),
@@ -1001,7 +1114,7 @@ impl Prop for C09 {
             "e2ec" => format!("e2ec:{}-app-{}", r.get(1).and_then(|x| x.strip_prefix("end=")).unwrap_or("?"),
                 if r.first().map(|x| *x == "app=-").unwrap_or(true) { "nothing" } else { "messages" }),
             "hm" => format!("hm:{}", r[0]),
-            "e2e" => format!("e2e:{}", if reply.contains("err:") { "ends-in-error" } else if reply == "panic" { "panic" } else { "eof" }),
+            "e2e" | "e2ed" => format!("{}:{}", op, if reply.contains("err:") { "ends-in-error" } else if reply == "panic" { "panic" } else { "eof" }),
             "rm" => format!("rm:{}", if reply == "panic" { "panic".into() } else { format!("{}reads-{}", r.len().min(9), r.last().unwrap().split(':').next().unwrap()) }),
             _ => {
                 if r.len() < 2 { return format!("{}:{}", op, reply); }
